@@ -209,24 +209,28 @@ fn lex_gt(a: (u64, u64), b: (u64, u64)) -> bool {
 }
 
 impl World {
-    fn start(root: &Path, cfg: &SysCfg) -> World {
+    fn start(root: &Path, cfg: &SysCfg, per_shard: usize) -> World {
         let _ = std::fs::remove_dir_all(root);
         let mut s = Session::start(root, cfg);
         let r = s.cmd("DEFINE ev FIELDS { k: \"int\", x: \"int\" }");
         assert!(r.map(|r| r.ok()).unwrap_or(false), "DEFINE failed");
-        // two contexts per shard
+        // `per_shard` contexts per shard; within a shard the index order is the order of the names
+        // (zones of a segment are laid out in context-id order)
         let mut per: Vec<Vec<String>> = vec![vec![]; cfg.shards];
         for i in 0..400 {
             let name = format!("c{i}");
             let sh = s.ctl(json!({"ctl":"route","ctx":name})).and_then(|v| v["shard"].as_u64()).expect("route") as usize;
-            if per[sh].len() < 2 {
+            if per[sh].len() < per_shard {
                 per[sh].push(name);
             }
-            if per.iter().all(|p| p.len() == 2) {
+            if per.iter().all(|p| p.len() == per_shard) {
                 break;
             }
         }
         let mut ctxs = vec![];
+        for p in per.iter_mut() {
+            p.sort();
+        }
         for (sh, names) in per.iter().enumerate() {
             for n in names {
                 ctxs.push((n.clone(), sh));
@@ -687,6 +691,57 @@ struct Clock {
     used: Vec<Vec<u64>>,
 }
 
+/// Histories that put already materialised rows and late rows into ONE segment, the old rows
+/// under the larger context ids: rows of earlier seconds sit in the memtable (or in an older
+/// segment) at REMEMBER / SHOW time, later seconds arrive on smaller context ids, then a FLUSH
+/// (and sometimes a compaction round) writes them together, then SHOW.
+fn gen_mixed_segment(r: &mut Rng, cfg: &SysCfg, per_shard: usize) -> Vec<Step> {
+    let mut steps = vec![];
+    let shard = r.below(cfg.shards as u64) as usize;
+    let base = shard * per_shard;
+    let (mut ts, mut ms) = (1 + r.below(3), 10 + r.below(20));
+    let spec = if r.chance(2, 3) { Spec { ctx: None, cmp: None, since: None } } else { Spec { ctx: None, cmp: Some((Cmp::Ge, 1)), since: None } };
+    // old rows: larger context ids, at least two distinct seconds (the mark's second must be
+    // strictly after the oldest zone)
+    let nold = 2 + r.below(2);
+    for i in 0..nold {
+        let ctx = if i == 0 || r.chance(1, 4) { base + per_shard - 1 } else { base + per_shard - 2 };
+        ts += 1;
+        ms += 1 + r.below(5);
+        steps.push(Step::Store { ctx, x: 1 + r.below(2), ts, ms, nosync: false });
+    }
+    let flushed_before = r.chance(1, 3);
+    if flushed_before {
+        steps.push(Step::Flush);
+    }
+    steps.push(Step::Remember { name: 0, spec: spec.clone() });
+    let rounds = 1 + r.below(3);
+    for _ in 0..rounds {
+        for _ in 0..(1 + r.below(2)) {
+            ts += 1 + r.below(2);
+            ms += 1 + r.below(5);
+            let ctx = base + r.below((per_shard - 1) as u64) as usize; // smaller context ids
+            steps.push(Step::Store { ctx, x: 1 + r.below(2), ts, ms, nosync: false });
+        }
+        if r.chance(4, 5) {
+            steps.push(Step::Flush);
+        }
+        if r.chance(1, 2) {
+            steps.push(Step::Compact(shard));
+        }
+        if r.chance(1, 4) {
+            steps.push(Step::Backdate);
+        }
+        steps.push(Step::Show { name: 0, twice: r.chance(1, 2), barrier: true });
+        // an old-second row on the largest context again, so that the next segment's last zone is old
+        if r.chance(1, 2) {
+            ms += 1 + r.below(5);
+            steps.push(Step::Store { ctx: base + per_shard - 1, x: 1, ts: ts.saturating_sub(1).max(1), ms, nosync: false });
+        }
+    }
+    steps
+}
+
 fn gen_history(r: &mut Rng, cfg: &SysCfg, nctx_per_shard: usize) -> Vec<Step> {
     let nctx = cfg.shards * nctx_per_shard;
     let mut steps = vec![];
@@ -821,8 +876,8 @@ fn fix_restart_clock(steps: &mut [Step]) {
     }
 }
 
-fn run_case(st: &mut Stream, i: u64, root: &Path, cfg: &SysCfg, steps: &[Step], label: &str) -> (Vec<(String, String)>, Vec<String>) {
-    let mut w = World::start(root, cfg);
+fn run_case(st: &mut Stream, i: u64, root: &Path, cfg: &SysCfg, per_shard: usize, steps: &[Step], label: &str) -> (Vec<(String, String)>, Vec<String>) {
+    let mut w = World::start(root, cfg, per_shard);
     for s in steps {
         w.exec(s);
     }
@@ -857,7 +912,7 @@ fn run_case(st: &mut Stream, i: u64, root: &Path, cfg: &SysCfg, steps: &[Step], 
 }
 
 /// Scripted histories that replay the Lean witnesses on the real engine.
-fn witnesses() -> Vec<(&'static str, SysCfg, Vec<Step>)> {
+fn witnesses() -> Vec<(&'static str, SysCfg, usize, Vec<Step>)> {
     let all = Spec { ctx: None, cmp: None, since: None };
     let big = SysCfg { shards: 2, event_per_zone: 4, fill_factor: 4, ..Default::default() };
     let one = SysCfg { shards: 1, event_per_zone: 2, fill_factor: 1, ..Default::default() };
@@ -867,6 +922,7 @@ fn witnesses() -> Vec<(&'static str, SysCfg, Vec<Step>)> {
         (
             "same-second-other-shard",
             big.clone(),
+            2,
             vec![
                 Step::Store { ctx: 2, x: 1, ts: 5, ms: 100, nosync: false },
                 Step::Remember { name: 0, spec: all.clone() },
@@ -880,6 +936,7 @@ fn witnesses() -> Vec<(&'static str, SysCfg, Vec<Step>)> {
         (
             "last-frame-one-shard",
             one.clone(),
+            2,
             vec![
                 Step::Store { ctx: 0, x: 1, ts: 1, ms: 10, nosync: false },
                 Step::Store { ctx: 0, x: 1, ts: 2, ms: 20, nosync: false },
@@ -893,6 +950,7 @@ fn witnesses() -> Vec<(&'static str, SysCfg, Vec<Step>)> {
         (
             "componentwise-mark",
             big.clone(),
+            2,
             vec![
                 Step::Store { ctx: 2, x: 1, ts: 9, ms: 50, nosync: false },
                 Step::Store { ctx: 2, x: 1, ts: 8, ms: 70, nosync: false },
@@ -905,6 +963,7 @@ fn witnesses() -> Vec<(&'static str, SysCfg, Vec<Step>)> {
         (
             "same-second-same-shard-ok",
             big.clone(),
+            2,
             vec![
                 Step::Store { ctx: 0, x: 1, ts: 5, ms: 100, nosync: false },
                 Step::Remember { name: 0, spec: all.clone() },
@@ -918,6 +977,7 @@ fn witnesses() -> Vec<(&'static str, SysCfg, Vec<Step>)> {
         (
             "earlier-second-late-arrival",
             one.clone(),
+            2,
             vec![
                 Step::Store { ctx: 0, x: 1, ts: 6, ms: 10, nosync: false },
                 Step::Remember { name: 0, spec: all.clone() },
@@ -929,6 +989,7 @@ fn witnesses() -> Vec<(&'static str, SysCfg, Vec<Step>)> {
         (
             "two-shards-remember",
             big.clone(),
+            2,
             vec![
                 Step::Store { ctx: 0, x: 1, ts: 10, ms: 10, nosync: false },
                 Step::Store { ctx: 2, x: 1, ts: 5, ms: 20, nosync: false },
@@ -941,8 +1002,56 @@ fn witnesses() -> Vec<(&'static str, SysCfg, Vec<Step>)> {
         (
             "remember-behind-rotation",
             one.clone(),
+            2,
             vec![
                 Step::RememberInWindow { name: 0, spec: all.clone(), ctx: 0, x: 1, ts: 3, ms: 10 },
+                Step::Show { name: 0, twice: true, barrier: true },
+            ],
+        ),
+        // Zones of a segment are in context order, not in time order: zz-old (second 1) and mm-mid
+        // (second 2) are in the memtable at REMEMBER, aa-late (second 3) joins them, one FLUSH writes
+        // the segment [aa-late | mm-mid | zz-old]; its LAST zone ends before the mark's second, an
+        // earlier zone holds the row above the mark (Lean: C14_segment_guard_last_zone_fails). Must hold.
+        (
+            "late-row-in-earlier-zone",
+            SysCfg { shards: 1, event_per_zone: 1, fill_factor: 4, ..Default::default() },
+            3,
+            vec![
+                Step::Store { ctx: 2, x: 1, ts: 1, ms: 10, nosync: false },
+                Step::Store { ctx: 1, x: 1, ts: 2, ms: 20, nosync: false },
+                Step::Remember { name: 0, spec: all.clone() },
+                Step::Store { ctx: 0, x: 1, ts: 3, ms: 30, nosync: false },
+                Step::Flush,
+                Step::Show { name: 0, twice: true, barrier: true },
+            ],
+        ),
+        // the same layout produced by a compaction round that merges an old and a new segment
+        (
+            "late-row-in-earlier-zone-compacted",
+            SysCfg { shards: 1, event_per_zone: 1, fill_factor: 4, segments_per_merge: 2, ..Default::default() },
+            3,
+            vec![
+                Step::Store { ctx: 2, x: 1, ts: 1, ms: 10, nosync: false },
+                Step::Store { ctx: 1, x: 1, ts: 2, ms: 20, nosync: false },
+                Step::Flush,
+                Step::Remember { name: 0, spec: all.clone() },
+                Step::Store { ctx: 0, x: 1, ts: 3, ms: 30, nosync: false },
+                Step::Flush,
+                Step::Compact(0),
+                Step::Show { name: 0, twice: true, barrier: true },
+            ],
+        ),
+        // two rows per zone: [aa-late, mm-mid | zz-old, zz-old]; the fourth STORE rotates the memtable
+        (
+            "late-row-in-earlier-zone-epz2",
+            SysCfg { shards: 1, event_per_zone: 2, fill_factor: 2, ..Default::default() },
+            3,
+            vec![
+                Step::Store { ctx: 2, x: 1, ts: 1, ms: 10, nosync: false },
+                Step::Store { ctx: 2, x: 1, ts: 1, ms: 20, nosync: false },
+                Step::Store { ctx: 1, x: 1, ts: 2, ms: 30, nosync: false },
+                Step::Remember { name: 0, spec: all.clone() },
+                Step::Store { ctx: 0, x: 1, ts: 3, ms: 40, nosync: false },
                 Step::Show { name: 0, twice: true, barrier: true },
             ],
         ),
@@ -950,6 +1059,7 @@ fn witnesses() -> Vec<(&'static str, SysCfg, Vec<Step>)> {
         (
             "names",
             one.clone(),
+            2,
             vec![
                 Step::Store { ctx: 0, x: 1, ts: 1, ms: 10, nosync: false },
                 Step::Remember { name: 0, spec: all.clone() },
@@ -979,15 +1089,24 @@ fn main() {
                 let cfg = SysCfg {
                     shards: 1 + r.below(3) as usize,
                     event_per_zone: 1 + r.below(3) as usize,
-                    fill_factor: 1 + r.below(2) as usize,
+                    fill_factor: 1 + r.below(3) as usize,
                     segments_per_merge: 2 + r.below(2) as usize,
                     ..Default::default()
                 };
-                let mut steps = gen_history(&mut r, &cfg, 2);
+                let mixed = r.chance(1, 3);
+                let mut cfg = cfg;
+                if mixed {
+                    // room for old and late rows in one memtable
+                    cfg.event_per_zone = 1 + r.below(2) as usize;
+                    cfg.fill_factor = if cfg.event_per_zone == 1 { 3 + r.below(3) as usize } else { 2 + r.below(2) as usize };
+                    cfg.segments_per_merge = 2;
+                }
+                let mut steps = if mixed { gen_mixed_segment(&mut r, &cfg, 3) } else { gen_history(&mut r, &cfg, 3) };
+                st.tally(if mixed { "shape:mixed-segment" } else { "shape:random" });
                 fix_restart_clock(&mut steps);
                 mark_nosync(&mut steps);
                 let root = a.out.join(format!("show-{i}"));
-                let (_f, _) = run_case(&mut st, i, &root, &cfg, &steps, "generated");
+                let (_f, _) = run_case(&mut st, i, &root, &cfg, 3, &steps, "generated");
                 if a.only.is_some() {
                     eprintln!("{steps:#?}");
                 }
@@ -998,13 +1117,13 @@ fn main() {
             let reps = a.cases.max(1);
             let mut n = 0u64;
             for rep in 0..reps {
-                for (label, cfg, steps) in &ws {
+                for (label, cfg, per_shard, steps) in &ws {
                     if a.only.is_some_and(|o| o != n) {
                         n += 1;
                         continue;
                     }
                     let root = a.out.join(format!("witness-{n}"));
-                    let (fails, _) = run_case(&mut st, n, &root, cfg, steps, label);
+                    let (fails, _) = run_case(&mut st, n, &root, cfg, *per_shard, steps, label);
                     let classes: BTreeSet<String> = fails.iter().map(|f| f.0.clone()).collect();
                     st.tally(&format!("{label}: {}", if classes.is_empty() { "property held".to_string() } else { format!("{classes:?}") }));
                     let _ = rep;
